@@ -281,6 +281,7 @@ static long validateCount(const ModelPtr &m)
     pid_t pid = fork();
     if (pid == 0) {
         close(fds[0]);
+        alarm(5); // the Validator can also loop for a very long time on such models
         auto v = Validator::create();
         v->validateModel(m);
         long n = long(v->issueCount());
@@ -372,6 +373,7 @@ static std::string runCase(const std::string &line)
             fflush(stdout);
             pid_t pid = fork();
             if (pid == 0) {
+                alarm(10);
                 auto pr = Printer::create();
                 std::string t = pr->printModel(m);
                 _exit(t.empty() ? 3 : 0);
